@@ -525,8 +525,8 @@ def check_pair(ctx, alg, law, lt, rt, raw, tol=TOL):
     ref = ev_ref(alg, lt, raw, track)
     ev_ref(alg, rt, raw, track)
     scale = max(1.0, track[0])
-    rep = {'class': alg.name, 'law': law, 'lhs': tree_str(lt), 'rhs': tree_str(rt), 'scale': scale,
-           'operands_hex': [hexl(r) for r in raw]}
+    rep = {'kind': 'single', 'class': alg.name, 'law': law, 'lhs': tree_str(lt), 'rhs': tree_str(rt), 'scale': scale,
+           'lhs_tree': lt, 'rhs_tree': rt, 'operands_hex': [hexl(r) for r in raw]}
     try:
         leaves = [alg.wrap(r) for r in raw]
         with np.errstate(all='ignore'):
@@ -563,13 +563,16 @@ def check_pair_seq(ctx, alg, law, lt, rt, raws, k):
     key = f"oracle:{alg.name}:{law}:seq"
     ctx.count(key)
     ctx.case((alg.name, law, 'seq', tuple(np.concatenate([r.flatten() for rr in raws for r in rr]))))
-    rep = {'class': alg.name, 'law': law, 'lhs': tree_str(lt), 'rhs': tree_str(rt), 'lengths': [len(r) for r in raws],
-           'operands_hex': [[hexl(r) for r in rr] for rr in raws]}
+    rep = {'kind': 'seq', 'class': alg.name, 'law': law, 'lhs': tree_str(lt), 'rhs': tree_str(rt), 'lengths': [len(r) for r in raws],
+           'lhs_tree': lt, 'rhs_tree': rt, 'k': k, 'operands_hex': [[hexl(r) for r in rr] for rr in raws]}
     try:
         leaves = [alg.wrap_seq(rr) if len(rr) > 1 else alg.wrap(rr[0]) for rr in raws]
         with np.errstate(all='ignore'):
-            L = alg.unwrap_seq(ev_impl(alg, lt, leaves), k)
-            Rr = alg.unwrap_seq(ev_impl(alg, rt, leaves), k)
+            def explen(t):       # a side that mentions no multi-valued leaf (e.g. the identity) is single-valued
+                return max([len(raws['XYZ'.index(c)]) for c in tree_str(t) if c in 'XYZ'] + [1])
+            L = alg.unwrap_seq(ev_impl(alg, lt, leaves), explen(lt))
+            Rr = alg.unwrap_seq(ev_impl(alg, rt, leaves), explen(rt))
+            L, Rr = (L * k if len(L) == 1 else L), (Rr * k if len(Rr) == 1 else Rr)
     except Exception as ex:
         ctx.fail(f"{key}:raises:{type(ex).__name__}", f"{alg.name} (sequences of length {[len(r) for r in raws]}): evaluating "
                  f"{tree_str(lt)} == {tree_str(rt)} raises {type(ex).__name__}: {ex}", dict(rep, exception=f"{type(ex).__name__}: {ex}"))
@@ -722,7 +725,13 @@ def tw_eval(name, cls, t, leaves, diag):
             else:
                 M = base.trexp2(x.S) @ base.trexp2(y.S)
                 diag['logm_complex'] = diag['logm_complex'] or bool(np.iscomplexobj(scipy.linalg.logm(M)))
-        diag['angles'].append(rot_angle(M[:-1, :-1]) if np.all(np.isfinite(M)) else float('nan'))
+        fin = bool(np.all(np.isfinite(M)))
+        diag['angles'].append(rot_angle(M[:-1, :-1]) if fin else float('nan'))
+        if name == 'Twist3' and fin and not base.iseye(M[:3, :3]) and diag['angles'][-1] < TINY:
+            # R is not within iseye's 10 eps of the identity, yet its rotation angle (robust atan2 form; it can be exactly
+            # 0 when the round-off in R is symmetric) is below TINY: base.trlog's general branch divides by sin(acos ..) ~ 0
+            # or by |w| = 0
+            diag['tiny'] = True
         return x * y
     if k == 'inv':
         return tw_eval(name, cls, t[1], leaves, diag).inv()
@@ -744,7 +753,7 @@ def tw_ref(t, mats, inv, info):
     return r
 
 
-TINY = 3e-8        # composed rotation angle in (0, TINY): base.trlog takes acos -> 0 and divides by sin 0
+TINY = 3e-8        # log argument not recognised by iseye (10 eps) but rotation angle < TINY: base.trlog divides by sin 0 / by 0
 NEAR_PI = 1e-3     # pi - angle < NEAR_PI: base.trlog loses accuracy like eps / (pi - angle)^2 (and the half-turn branch)
 
 
@@ -752,12 +761,12 @@ def twist_cause(name, diag):
     """root-cause class of a twist-law failure, from the logarithm arguments the implementation actually formed"""
     if name == 'Twist2':
         return 'logm-complex' if diag['logm_complex'] else 'generic'
+    if diag.get('tiny'):
+        return 'tiny-angle'
     band = 'generic'
     for a in diag['angles']:
         if not math.isfinite(a):
             continue
-        if 0 < a < TINY:
-            return 'tiny-angle'
         if math.pi - a < NEAR_PI:
             band = 'near-pi'
     return band
@@ -777,42 +786,46 @@ def oracle_twists(ctx):
             raw = [twist_sample(rng, dim) for _ in range(3)]
             if i < len(TWIST_SPECIALS[name]):
                 raw = [np.array(S, float) for S in TWIST_SPECIALS[name][i]]
-            mats = [expr(S) for S in raw]
             for law, lt, rt in tlaws:
-                info = {'tmax': 0.0}
-                ref = tw_ref(lt, mats, alg.inv, info)
-                if rt is not None:
-                    tw_ref(rt, mats, alg.inv, info)
-                scale = max(1.0, info['tmax'])
-                ctx.case((name, law, tuple(np.concatenate(raw))))
-                diag = {'angles': [], 'logm_complex': False}
-                rep = {'class': name, 'law': law, 'lhs': tree_str(lt), 'rhs': tree_str(rt) if rt else 'exp(X)*exp(Y)',
-                       'twists_hex': [hexl(S) for S in raw], 'twists': [S.tolist() for S in raw]}
-                try:
-                    leaves = [cls(S) for S in raw]
-                    with np.errstate(all='ignore'):
-                        L = np.asarray(tw_eval(name, cls, lt, leaves, diag).exp().A, float)
-                        Rr = np.asarray(tw_eval(name, cls, rt, leaves, diag).exp().A, float) if rt is not None else \
-                            np.asarray((leaves[0].exp() * leaves[1].exp()).A, float)
-                except Exception as ex:
-                    cause = twist_cause(name, diag)
-                    ctx.count(f"oracle:{name}:{law}:{cause}")
-                    k2 = f"oracle:{name}:{cause}:raises" if cause != 'generic' else f"oracle:{name}:{law}:generic:raises:{type(ex).__name__}"
-                    ctx.fail(k2, f"{name}: {rep['lhs']} == {rep['rhs']} (as motions) raises {type(ex).__name__}: {ex} "
-                             f"[rotation angles of the composed motions: {diag['angles']}]",
-                             dict(rep, exception=f"{type(ex).__name__}: {ex}", cause=cause, composed_rotation_angles=diag['angles']))
-                    continue
-                cause = twist_cause(name, diag)
-                ctx.count(f"oracle:{name}:{law}:{cause}")
-                ok_shape = L.shape == Rr.shape == ref.shape and np.all(np.isfinite(L)) and np.all(np.isfinite(Rr))
-                d = float(np.max(np.abs(L - Rr))) if ok_shape else float('inf')
-                wk = f"worst:oracle:{name}:{cause}"
-                ctx.stats[wk] = max(ctx.stats.get(wk, 0.0), d / scale)
-                if not d <= TOL_TWIST * scale:
-                    k2 = f"oracle:{name}:{cause}:value" if cause != 'generic' else f"oracle:{name}:{law}:generic:value"
-                    ctx.fail(k2, f"{name}: {rep['lhs']} and {rep['rhs']} differ as motions by {d:g} (allowed {TOL_TWIST:g} * {scale:g}) "
-                             f"[rotation angles of the composed motions: {diag['angles']}]",
-                             dict(rep, difference=d, scale=scale, cause=cause, composed_rotation_angles=diag['angles']))
+                twist_case(ctx, name, cls, expr, alg, law, lt, rt, raw)
+
+
+def twist_case(ctx, name, cls, expr, alg, law, lt, rt, raw):
+    mats = [expr(S) for S in raw]
+    info = {'tmax': 0.0}
+    ref = tw_ref(lt, mats, alg.inv, info)
+    if rt is not None:
+        tw_ref(rt, mats, alg.inv, info)
+    scale = max(1.0, info['tmax'])
+    ctx.case((name, law, tuple(np.concatenate(raw))))
+    diag = {'angles': [], 'logm_complex': False}
+    rep = {'kind': 'twist', 'class': name, 'law': law, 'lhs': tree_str(lt), 'rhs': tree_str(rt) if rt else 'exp(X)*exp(Y)',
+           'lhs_tree': lt, 'rhs_tree': rt, 'twists_hex': [hexl(S) for S in raw], 'twists': [S.tolist() for S in raw]}
+    try:
+        leaves = [cls(S) for S in raw]
+        with np.errstate(all='ignore'):
+            L = np.asarray(tw_eval(name, cls, lt, leaves, diag).exp().A, float)
+            Rr = np.asarray(tw_eval(name, cls, rt, leaves, diag).exp().A, float) if rt is not None else \
+                np.asarray((leaves[0].exp() * leaves[1].exp()).A, float)
+    except Exception as ex:
+        cause = twist_cause(name, diag)
+        ctx.count(f"oracle:{name}:{law}:{cause}")
+        k2 = f"oracle:{name}:{cause}:raises" if cause != 'generic' else f"oracle:{name}:{law}:generic:raises:{type(ex).__name__}"
+        ctx.fail(k2, f"{name}: {rep['lhs']} == {rep['rhs']} (as motions) raises {type(ex).__name__}: {ex} "
+                 f"[rotation angles of the composed motions: {diag['angles']}]",
+                 dict(rep, exception=f"{type(ex).__name__}: {ex}", cause=cause, composed_rotation_angles=diag['angles']))
+        return
+    cause = twist_cause(name, diag)
+    ctx.count(f"oracle:{name}:{law}:{cause}")
+    ok_shape = L.shape == Rr.shape == ref.shape and np.all(np.isfinite(L)) and np.all(np.isfinite(Rr))
+    d = float(np.max(np.abs(L - Rr))) if ok_shape else float('inf')
+    wk = f"worst:oracle:{name}:{cause}"
+    ctx.stats[wk] = max(ctx.stats.get(wk, 0.0), d / scale)
+    if not d <= TOL_TWIST * scale:
+        k2 = f"oracle:{name}:{cause}:value" if cause != 'generic' else f"oracle:{name}:{law}:generic:value"
+        ctx.fail(k2, f"{name}: {rep['lhs']} and {rep['rhs']} differ as motions by {d:g} (allowed {TOL_TWIST:g} * {scale:g}) "
+                 f"[rotation angles of the composed motions: {diag['angles']}]",
+                 dict(rep, difference=d, scale=scale, cause=cause, composed_rotation_angles=diag['angles']))
 
 
 _AX = [1 / math.sqrt(14), 2 / math.sqrt(14), 3 / math.sqrt(14)]
@@ -822,6 +835,9 @@ TWIST_SPECIALS = {
         [[0.3, -0.2, 0.5] + [a * (math.pi - 1e-6) for a in _AX], [0.1, 0.2, 0.3, 0.2, -0.1, 0.4], [1, 0, 0, 0, 0, 0.5]],
         [[0.3, -0.2, 0.5] + [a * 1e-9 for a in _AX], [0.1, 0.2, 0.3, 0.2, -0.1, 0.4], [1, 0, 0, 0, 0, 0.5]],
         [[0.3, -0.2, 0.5] + [a * math.pi for a in _AX], [0.1, 0.2, 0.3, 0.2, -0.1, 0.4], [1, 0, 0, 0, 0, 0.5]],
+        # exp(X) @ exp(-X) = I + 2.4e-15 (symmetric): not `iseye`, acos gives exactly 0 -> ZeroDivisionError
+        [[0.0005663899941463186, -0.0006996012426814142, -0.00046753360502624835, 2.8005337726876376, 0.6718287654153237,
+          -1.2550924243366512], [0.1, 0.2, 0.3, 0.2, -0.1, 0.4], [1, 0, 0, 0, 0, 0.5]],
     ],
     'Twist2': [
         [[0.3, -1.0, math.pi], [1.0, 2.0, 0.5], [0.2, 0.1, -0.3]],
@@ -858,3 +874,40 @@ def run(ctx):
             f.result()
     # keep the obligations in file order whatever the completion order was
     ctx.obligations.sort(key=lambda o: o.file)
+
+
+def _tup(t):
+    return tuple(_tup(x) if isinstance(x, list) else x for x in t) if isinstance(t, list) else t
+
+
+def replay(ctx, path):
+    """re-run exactly the recorded case (oracle findings); broken obligations / correspondences re-run the whole check"""
+    rec = json.load(open(path))
+    key, r = rec.get('key'), rec.get('replay') or {}
+    kind = r.get('kind')
+    unhex = lambda l: np.array([float.fromhex(x) for x in l])
+    if key is None or kind is None:
+        run(ctx)
+        key = key or ('obligation:' + rec.get('broken_obligation', ''))
+        keys = {f.key for f in ctx.findings} | {'obligation:' + o.name for o in ctx.obligations if o.ok is False}
+    else:
+        lt, rt = _tup(r['lhs_tree']), _tup(r['rhs_tree']) if r['rhs_tree'] is not None else None
+        if kind == 'twist':
+            name = r['class']
+            cls, expr, alg = (Twist3, exp_ref3, ALGS[3]) if name == 'Twist3' else (Twist2, exp_ref2, ALGS[1])
+            twist_case(ctx, name, cls, expr, alg, r['law'], lt, rt, [unhex(S) for S in r['twists_hex']])
+        else:
+            alg = [a for a in ALGS if a.name == r['class']][0]
+            shp = (4,) if alg.name == 'UnitQuaternion' else (alg.N, alg.N)
+            if kind == 'single':
+                check_pair(ctx, alg, r['law'], lt, rt, [unhex(o).reshape(shp) for o in r['operands_hex']])
+            else:
+                check_pair_seq(ctx, alg, r['law'], lt, rt, [[unhex(o).reshape(shp) for o in oo] for oo in r['operands_hex']], r['k'])
+        keys = {f.key for f in ctx.findings}
+    for f in ctx.findings:
+        print(f"  {f.key}: {f.what[:300]}")
+    if key in keys:
+        print(f"REPRODUCED {key}")
+        return 1
+    print(f"not reproduced: {key}")
+    return 0
